@@ -4,6 +4,8 @@
 //! crate's own unit tests do, and expose plain-data methods so that an external
 //! harness can replay model-generated behaviours and record traces.
 
+pub mod clock;
+pub mod disc_rig;
 pub mod net;
 pub mod reader_rig;
 pub mod writer_rig;
